@@ -782,8 +782,21 @@ func (l *lexer) popToken() token {
 }
 
 func (l *lexer) pushToken(t token) {
+	next := (l.head + 1) % len(l.tokens)
+	if next == l.tail {
+		// full (a long '+' concatenation is lexed in one go): unroll into a ring twice the size
+		// instead of overwriting tokens that have not been read yet
+		grown := make([]token, len(l.tokens)*2)
+		n := 0
+		for i := l.tail; i != l.head; i = (i + 1) % len(l.tokens) {
+			grown[n] = l.tokens[i]
+			n++
+		}
+		l.tokens, l.tail, l.head = grown, 0, n
+		next = l.head + 1
+	}
 	l.tokens[l.head] = t
-	l.head = (l.head + 1) % len(l.tokens)
+	l.head = next
 }
 
 func (l *lexer) nextToken() (token, error) {
